@@ -1026,7 +1026,10 @@ def x86_run_cases(cases, out, wd, exe, flags, logflags, tier, by_name=None):
             out.samples.append("%s -> `%s` [%s]" % (emit, t0, rec.hex))
         if tier == "thorough" and t0 and rec.hex != "-" and rec.info.startswith("r0") and "post=" not in rec.info and \
                 not c.pre and not c.post and not any(o[0] == "l" or (o[0] == "m" and isinstance(o[1].base, tuple) and o[1].base[0] == "label") for o in c.ops):
-            rt_items[c.mode].append((c, bytes.fromhex(rec.hex), t0, emit, rp))
+            if any(o[0] == "m" and 1 <= o[1].seg <= 4 for o in c.ops):
+                out.cnt["roundtrip_redundant_segment_override_not_judged"] += 1      # gas drops / refuses es cs ss ds overrides
+            else:
+                rt_items[c.mode].append((c, bytes.fromhex(rec.hex), t0, emit, rp))
     if crash is not None:
         rc, cur, err = crash
         c = None
@@ -1177,7 +1180,8 @@ def a64_run_cases(cases, out, wd, exe, flags, logflags, tier):
         t0 = judge.judge_case(given, rec, "a64", mnemonic, emit, rp, pseudo_ok=pseudo)
         if len(out.samples) < 3 and t0 and done % 499 == 7:
             out.samples.append("%s -> `%s` [%s]" % (emit, t0, rec.hex))
-        if tier == "thorough" and t0 and len(rec.hex) == 8 and "$" not in emit and "pc" not in emit:
+        zero_wb = any(o[0] == "mem" and o[1].mode == "post" and o[1].index is None and o[1].off == 0 for o in given.ops)
+        if tier == "thorough" and t0 and len(rec.hex) == 8 and "$" not in emit and "pc" not in emit and not zero_wb:
             rt.append((emit, c.ref, rec.hex, t0, rp, mnemonic, given))
     if crash is not None:
         rc, cur, err = crash
@@ -1240,7 +1244,7 @@ def run(res, ctx):
     t0 = time.time()
     exe = vbuild.build("fast", os.path.join(vbuild.VERIF, SRC))
     flags, logflags = tier_flags(tier)
-    budget = float(opts.get("budget", 160 if tier == "quick" else 1100))
+    budget = float(opts.get("budget", 900 if tier == "quick" else 3000))
     deadline = t0 + budget
     stride = int(opts.get("stride", 1))
     run_id = "run%d" % os.getpid()
